@@ -662,7 +662,8 @@ class TExpr:
         if k == 26: return 'lst[%s %% 3]' % X()
         if k == 27: return '(%s).real' % X()
         if k == 28: return '[%s, %s][%s:][0]' % (X(), X(), B())
-        if k == 29: return r.choice(['[(lambda: %s)()][0]', "{'k': (lambda: %s)()}['k']", '[(lambda u: u + %s)(1)][0]']) % X()
+        if k == 29: return r.choice(['[(lambda: %s)()][0]', "{'k': (lambda: %s)()}['k']", '[(lambda u: u + %s)(1)][0]', 'gf(*[(lambda: %s)()])',
+                                     'gf(0, *[(lambda u: u + %s)(1)])']) % X()
         return "{'p': %s, 'q': %s}[%s]" % (X(), X(), "'p' if %s else 'q'" % B())
     def par(self, x):
         return '(%s)' % x if self.r.random() < .5 else x
@@ -947,6 +948,8 @@ E2E_WITNESSES = [   # regression inputs of the defects found by this check (fixe
     ('slice', 'lst[k:][0] + lst[::2][1] + lst[:-1][0]'),
     ('lambda in a list display', '[(lambda: a)()][0]'),
     ('lambda in a dict display', "{'k': (lambda: a)()}['k']"),
+    ('lambda under starred arguments', 'gf(*[(lambda: a)()])'),
+    ('lambda under starred arguments in a display', "{'q': gf(*[[(lambda u: u + gf(a))(1)][0], 2])}['q']"),
 ]
 
 
@@ -978,6 +981,12 @@ def e2e(ctx):
     seen = set()
     for f in fails:
         key = 'e2e:%s:%s' % (f['form'] if f['form'] in ('str', 'lamstr') else 'bytecode', f['expr'])
+        try:
+            et = ast.parse(f['expr'], mode='eval')
+            if any(isinstance(n, ast.Starred) and any(isinstance(x, ast.Lambda) for x in ast.walk(n)) for n in ast.walk(et)):
+                key = 'e2e:starred-lambda-evaluated-in-globals'     # one defect: postStarred marks *expr external whatever it holds
+        except SyntaxError:
+            pass
         if key in seen: continue
         seen.add(key)
         ctx.violation(f['what'], {'form': f['form'], 'expr': f['expr'], 'scope': f['scope']}, observed=f.get('pony'),
